@@ -286,6 +286,16 @@ func GenProgram(r *Rand, o ProgOpts) []Op {
 		case 3:
 			t := Op{K: "txn", Commit: r.Bool(0.8)}
 			m := r.Range(1, 6)
+			if o.Big && r.Bool(0.1) {
+				// a commit larger than the log's 64 KB write buffer
+				for j, k := 0, r.Range(3, 5); j < k; j++ {
+					p := put()
+					p.Len = r.Range(20000, 31000)
+					t.Sub = append(t.Sub, small(p))
+				}
+				t.Commit = true
+				m = r.Range(0, 2)
+			}
 			for j := 0; j < m; j++ {
 				switch r.Pick(6, 2, 3) {
 				case 0:
